@@ -137,6 +137,23 @@ def gen_history(rng, case, n_ops, change_ops=True):
             ops.append(["setGlobal", g0])
             ops.append(["read", n])
         scen.append("reset-then-global-switch:" + want_form)
+    if rng.random() < 0.3:
+        # deliberate scenario: the quantity's sample size is assigned, read, and assigned AGAIN with
+        # the same number (also: the number that is already in effect through the global setting):
+        # every assignment of the sample size starts a new simulation
+        n = rng.choice(qn[-3:])
+        k = rng.choice([40, 70])
+        ops.append(["setMethod", n, "monte-carlo"])
+        ops.append(["read", n])
+        if rng.random() < 0.5:
+            ops.append(["setSize", n, k])
+            ops.append(["read", n])
+        else:
+            k = 50      # the global size the harness configures (run_impl: mc_size)
+        ops.append(["setSize", n, k])
+        ops.append(["read", n])
+        ops.append(["read", n])
+        scen.append("same-sample-size-again:" + ("own" if k != 50 else "global"))
     if not change_ops and rng.random() < 0.5:
         # deliberate scenario: a Monte Carlo read of one result (own selection or global setting),
         # then the FIRST derivative read of a result that has nothing buffered (recalculated, or a
